@@ -1555,6 +1555,13 @@ class Interp:
     def ex_ListComp(self, node, env):
         return self._comp(node, env, lambda e: self.eval(node.elt, e))
 
+    def ex_DictComp(self, node, env):
+        pairs = self._comp(node, env, lambda e: (self.eval(node.key, e), self.eval(node.value, e)))
+        return dict(pairs)
+
+    def ex_SetComp(self, node, env):
+        return set(self._comp(node, env, lambda e: self.eval(node.elt, e)))
+
     def ex_GeneratorExp(self, node, env):
         return _Gen(self._comp(node, env, lambda e: self.eval(node.elt, e)))
 
